@@ -334,6 +334,8 @@ def write_evidence(prop, tier, seed, ctx, status, err, violations, known_hits, w
             "list_loops_as_comprehensions": [f"{c}:{l}" for c, l in getattr(r_, "comprehended", [])][:40],
             "continue_guards_as_conditionals": [f"{c}:{l}" for c, l in getattr(r_, "unguarded", [])][:40],
             "conditional_values_as_statements": [f"{c}:{l}" for c, l in getattr(r_, "lowered", [])][:40],
+            "dispatch_dicts_expanded": [f"{c}:{l}" for c, l in getattr(r_, "dispatched", [])][:40],
+            "passes_that_stopped_early": list(getattr(r_, "normal_form_errors", [])),
         }
     if err:
         cov["analysis_error"] = err.splitlines()[0]
